@@ -30,6 +30,15 @@ CHECKS["C08"] = dict(
     technique="bounded symbolic execution of the real analyses with contract stubs + z3 pre/post state equality obligations; replay on real code",
     ref="5/C08")
 
+CHECKS["C10"] = dict(
+    text="The real trim loops (pitch_trim, pitch_trim_using_orientation, target_CL) run symbolically with stubbed solve, unrolled to two iterations with symbolic residuals: z3 decides "
+         "that every path either raises MaxIterationError or returns values which, applied to a fresh scene through the public API, reproduce exactly the state of the last residual "
+         "evaluation, that this evaluation met the documented targets (default = weight coefficient with air-relative speed) within 1e-9, and that only the trim variables changed; "
+         "missing control -> IOError; aero_center's returned point satisfies the stationarity conditions for arbitrary stub results.",
+    note="Convergence of the iterations is outside; loop unrolling 2; LLsolve/AeroADT/linsolve stubs; cut point at euler_to_quat (unit norm proven, components named).",
+    technique="bounded symbolic execution (loops unrolled) of the real trim code with contract stubs + z3 obligations; replay on real code",
+    ref="5/C10")
+
 NOT_APPLICABLE = {
     "C18": "classical lifting-line limits: a convergence statement about the N>=20 discrete solution (value and rate under grid refinement); no bounded SMT encoding of the 40x40 transcendental system is within reach and the small N the engine handles is where the claim is not expected to hold",
 }
